@@ -150,8 +150,9 @@ func c11Main(args []string) int {
 	defer out.Flush()
 	for in.Scan() {
 		var c struct {
-			Bytes []int  `json:"bytes"`
-			Src   string `json:"src"`
+			Bytes   []int  `json:"bytes"`
+			Src     string `json:"src"`
+			Timeout int    `json:"timeout"`
 		}
 		if json.Unmarshal([]byte(in.Text()), &c) != nil {
 			fmt.Fprintln(out, `["BadCase"]`)
@@ -166,6 +167,10 @@ func c11Main(args []string) int {
 			src = string(bs)
 		}
 		var res []string
+		wd := c.Timeout
+		if wd == 0 {
+			wd = 20
+		}
 		for _, mode := range []string{"exec", "eval", "single"} {
 			done := make(chan string, 1)
 			go func() {
@@ -189,13 +194,24 @@ func c11Main(args []string) int {
 							loc = "+loc"
 						}
 					}
+					if cls != "SyntaxError" && cls != "IndentationError" && cls != "TabError" {
+						if e, ok := err.(*py.Exception); ok {
+							if a, ok := e.Args.(py.Tuple); ok && len(a) > 0 {
+								m, _ := py.StrAsString(a[0])
+								if len(m) > 120 {
+									m = m[:120]
+								}
+								return cls + loc + ":" + strings.ReplaceAll(m, "\n", " ")
+							}
+						}
+					}
 					return cls + loc
 				}()
 			}()
 			select {
 			case r := <-done:
 				res = append(res, r)
-			case <-time.After(5 * time.Second):
+			case <-time.After(time.Duration(wd) * time.Second):
 				res = append(res, "HANG")
 				b, _ := json.Marshal(res)
 				out.Write(b)
